@@ -839,7 +839,7 @@ pub fn run(cfg: &Cfg) -> Report {
     let release = cfg.lane == "release";
 
     // (A) every shape 1..6 x 1..6, several magnitude classes, all backends
-    let per_shape = cfg.tier.pick(160, 12_000);
+    let per_shape = cfg.tier.pick(2_500, 60_000);
     let ctx = par_range(cfg, 36 * per_shape, |ctx, k| {
         let shape = k % 36;
         let (nr, nc) = (1 + shape / 6, 1 + shape % 6);
@@ -874,7 +874,7 @@ pub fn run(cfg: &Cfg) -> Report {
     }
 
     // (B) residue classes
-    let ctx = par_range(cfg, cfg.tier.pick(16, 400), |ctx, k| {
+    let ctx = par_range(cfg, cfg.tier.pick(64, 1600), |ctx, k| {
         let mut rng = Rng::stream(seed, 0x18_4000_0000 + k as u64);
         residues::<2>(ctx, &mut rng, 60);
         residues::<3>(ctx, &mut rng, 60);
@@ -886,7 +886,7 @@ pub fn run(cfg: &Cfg) -> Report {
     report.absorb(ctx);
 
     // (C) modular solver
-    let nmod = cfg.tier.pick(4_000, 200_000);
+    let nmod = cfg.tier.pick(40_000, 1_000_000);
     let ctx = par_range(cfg, nmod, |ctx, k| {
         let mut rng = Rng::stream(seed, 0x18_8000_0000 + k as u64);
         modular(ctx, &mut rng, k);
@@ -894,7 +894,7 @@ pub fn run(cfg: &Cfg) -> Report {
     report.absorb(ctx);
 
     // (D) periodic graphs
-    let npg = cfg.tier.pick(1_500, 60_000);
+    let npg = cfg.tier.pick(8_000, 200_000);
     let ctx = par_range(cfg, npg, |ctx, k| {
         let mut rng = Rng::stream(seed, 0x18_c000_0000 + k as u64);
         let c = random_pgraph(&mut rng);
